@@ -228,7 +228,7 @@ def stmt_batch(task):
                 inputs = {f"in{i}": R.bits_of(v, c02.INPUTS[i][0]) for i, v in zip(in_idx, vals)}
                 if st is not None:
                     ctx.set(out_cat, allst)
-                    it.poke(poke)
+                    it.poke_all(poke)
                     it.set(inputs)
                     ctx.set(cd.clk, 1)
                     it.set({"clk": 1})
@@ -495,7 +495,7 @@ def run(rep):
     tasks = []
     W1 = rep.pick(3, 3)
     gen = [("d1", W1, tr, {}) for tr in itertools.product(G.shapes(W1), repeat=3)]
-    shapes2 = G.shapes(2) if not rep.quick else [(0, False), (2, False), (1, True), (2, True)]
+    shapes2 = G.shapes(2) if not rep.quick else [(0, False), (2, False), (2, True)]
     gen += [("d2", 2, tr, {}) for tr in itertools.product(shapes2, repeat=3)]
     gen.append(("const", 3, ((0, False),) * 3, {}))
     allgroups = {}
@@ -518,10 +518,10 @@ def run(rep):
     for key, ms in groups.items():
         bits = sum(c02.INPUTS[i][0] for i in key)
         size = max(8, 120 >> max(0, bits - 6))
-        sel = ms if not rep.quick else ms[::2]
+        sel = ms if not rep.quick else ms[::4]
         for n, ch in enumerate(chunks(sel, size)):
             tasks.append(("stmt", (ch, "comb", ("flat", "child", "deep")[n % 3])))
-        sel = ms[::2] if not rep.quick else ms[::6]
+        sel = ms[::2] if not rep.quick else ms[::12]
         for n, ch in enumerate(chunks(sel, max(4, size // 3))):
             tasks.append(("stmt", (ch, "sync", ("deep", "flat", "child")[n % 3])))
     for name in (QUICK_SEQ if rep.quick else list(SEQ_DESIGNS)):
